@@ -297,12 +297,13 @@ let run_case (env : mdesc array) (envl : mdesc list) (line : string) : string op
          let bytes = bytes_of_hex (next t) in
          (match Unpack.unpack_top envl (nat_of_int d) bytes with
           | Ok m ->
-            Buffer.add_string b (Printf.sprintf "N %d %d %d %d %d"
+            Buffer.add_string b (Printf.sprintf "N %d %d %d %d %d %d"
                                    (if Canon.canon_msg envl (Norm.norm_msg envl m) then 1 else 0)
                                    (if Canon.canon_msg envl m then 1 else 0)
                                    (if WF.wf_msg envl m then 1 else 0)
                                    (if Typed.typed_msg envl m then 1 else 0)
-                                   (match Check.check_msg envl m with Ok true -> 1 | _ -> 0))
+                                   (match Check.check_msg envl m with Ok true -> 1 | _ -> 0)
+                                   (if Typed.unk_small envl m then 1 else 0))
           | Err _ -> Buffer.add_string b "N -")
        | "LEDGER" ->
          (* the verified allocation monitor (Impl/Ledger.v, Proofs/LedgerSound.v) on a trace of UNPACKT events *)
